@@ -68,7 +68,7 @@ func runC15(run *Run, replay string) {
 			if len(diags) > 0 {
 				run.Distinct(string(sc.Src))
 			}
-			run.Case("validate", []S{bodySchemaS(sc.Main.Schema), bodyS(body)}, diagsCanonical(diags))
+			run.Case("validate", []S{sc.schemaS(), bodyS(body)}, diagsCanonical(diags))
 			// Validate() must agree with ValidateFile() per file
 			res2 := safeCall("Validate", func() (interface{}, error) { return d.Validate(ctx) })
 			if res2.Panic == "" && res2.Err == nil {
